@@ -96,6 +96,10 @@ def bounds(db, ctx):
                     vals.append(bool(v is not None and v == pol))
                 from ..inline import nf as _nf
                 xs = _nf(x) if x else "?"     # canonical, let-expanded: the key must not depend on a local's name
+                if len(xs) > 60 and x is not None:
+                    # a field of a struct built in place: name it by type and field instead of spelling out the whole literal
+                    px = peel_casts(x)
+                    xs = ("%s.%s" % (short_path(px.get("adt") or "?"), px.get("name"))) if px.get("k") == "Field" else render(x)
                 narrow = narrowing_casts(x, db, f) if x else []
                 signed_ok = True
                 xty = (x or {}).get("ty", "")
